@@ -677,7 +677,7 @@ def Expr.text (sch : Schema) : Expr → String
   | .and a b => "(" ++ wrapParen (a.text sch) ++ " AND " ++ wrapParen (b.text sch) ++ ")"
   | .or a b => "(" ++ wrapParen (a.text sch) ++ " OR " ++ wrapParen (b.text sch) ++ ")"
   | .not a => "NOT " ++ a.text sch
-  | .kw conds => " AND ".intercalate (conds.map (Cond.text sch))
+  | .kw conds => "(" ++ " AND ".intercalate (conds.map (Cond.text sch)) ++ ")"   -- a text clause is grouped by `__init__`
 
 def Term.text (sch : Schema) : Term → String
   | .field c => sch.qual c
